@@ -17,16 +17,23 @@ EXPLANATION = (
     "symbolic instants and a counting chain: no exception, every loop iteration entered with time left takes at least one "
     "whole step, the loop ends at the first check with the budget used up. ChainPool.advance with Pool replaced by its "
     "in-process map contract advances every chain once by n and keeps their order."
+    " ParallelTempering.run_for (take_steps / swap replaced by counting stubs, the clock by arbitrary non-decreasing symbolic "
+    "instants, int() of the cycles-per-check estimate forked by the solver): no division by zero when the clock has not moved "
+    "over the timing cycle, every batch of steps is one swap interval long and followed by one exchange round, every loop "
+    "iteration entered with time left runs at least one whole swap cycle however slow a cycle is, and the loop ends at the "
+    "first test with the budget used up."
     " ChainPool: 1..4 chains on a machine with 1..3 cores (cpu_count is an environment stub), advanced twice; every chain exactly n steps per call, returned in the caller's order."
     ' Twin-chain unit: two chains built from the same symbolic inputs whose own generators hand out the same symbolic draws take identical steps (module-level numpy.random functions are an environment stub returning fresh arbitrary numbers). One step of every chain sampler stores exactly one sample and one log-probability on every path through its retry loop.'
 )
 BOUNDS = {"quick": "advance: all m >= 0; ensemble k<=2, 3 walkers, 2 calls; run_for: <=3 loop iterations, step rates <= 3 per second "
-                   "(slow steps) plus the zero-elapsed-time corner; pools of 1..4 chains on 1..3 cores",
-          "thorough": "ensemble k<=3 with 2 walkers (3 walkers with two advances did not finish in an hour and was dropped); run_for <=4 loop iterations"}
+                   "(slow steps) plus the zero-elapsed-time corner; ParallelTempering.run_for: <=2 loop iterations, swap cycles of 1/2 s or "
+                   "slower (no upper limit; estimate 0..4 cycles per clock check), swap_interval 1..2, plus the stalled-clock corner; pools of 1..4 chains on 1..3 cores",
+          "thorough": "ensemble k<=3 with 2 walkers (3 walkers with two advances did not finish in an hour and was dropped); run_for <=4 loop iterations; ParallelTempering.run_for <=3 loop iterations"}
 TECHNIQUE = "AST-to-SMT integer encoding of MarkovChain.advance with loop summarisation (z3, all m >= 0) validated against the real method; symbolic execution of ensemble advance / run_for with a symbolic clock (z3 per-path queries); counterexamples replayed"
 ASSUMPTIONS = [
     "loop summarisation lemma of pyint (a loop adding a loop-invariant amount c per iteration adds c*max(N,0))",
-    "time.time() returns non-decreasing instants; progress printing is disabled",
+    "time.time() returns non-decreasing instants; progress printing is disabled (ParallelTempering.run_for: sys.stdout and the divmod of its time-left message are no-op stubs)",
+    "ParallelTempering.run_for is driven with take_steps / swap as counting stubs (their behaviour is decided under C08); swap cycles faster than 1/2 s (more than 4 cycles per clock check) are outside the explored bound",
     "the multiprocessing pool is its map contract (pickling round trip outside)",
 ]
 
@@ -178,6 +185,89 @@ def run_for_keeps_stepping_until_the_budget_is_used(h, iters, regime):
         prev = log[times[a - 1]][1]
         h.true(f"iteration {a} was entered with time left", prev < end)
     h.true("the loop stopped at the first reading with the budget used up", log[times[-1]][1] >= end)
+
+
+class CycleClock:
+    """time.time() stub for ParallelTempering.run_for: arbitrary non-decreasing instants; regime 'slow': a reading that
+    follows k swap cycles is at least k/2 s after the previous reading (so the cycles-per-clock-check estimate
+    int(2/dt) is one of 0..4; a cycle may be arbitrarily slower than that); regime 'stalled': the clock has not moved
+    over the timing cycle (coarse timer, fast cycle)."""
+
+    def __init__(self, h, log, max_calls, regime):
+        self.h, self.log, self.n, self.max, self.regime = h, log, 0, max_calls, regime
+        self.now = None
+        self.seen = 0
+
+    def __call__(self):
+        from symnp.core import PathAbort
+        self.n += 1
+        if self.n > self.max:
+            raise PathAbort("bound", "more clock readings than the explored bound")
+        cycles = sum(1 for e in self.log if e[0] == "swap")
+        if self.now is None:
+            self.now = self.h.real("t0", lo=0)
+        else:
+            dt = self.h.real(f"dt{self.n}", lo=0)
+            if self.h.sym:
+                if self.regime == "stalled" and self.n == 3:
+                    self.h.ctx.side.append(R(dt) == 0)
+                else:
+                    self.h.ctx.side.append(R(dt) * 2 >= (cycles - self.seen))
+            self.now = self.now + dt
+        self.seen = cycles
+        self.log.append(("time", self.now))
+        return self.now
+
+
+class _Quiet:
+    class stdout:
+        write = staticmethod(lambda *a, **k: None)
+        flush = staticmethod(lambda *a, **k: None)
+
+
+@unit("C15", quick=[dict(iters=2, regime="slow"), dict(iters=1, regime="stalled")], thorough=[dict(iters=3, regime="slow")], max_paths=6000, cost=6)
+def tempering_run_for_keeps_cycling_until_the_budget_is_used(h, iters, regime):
+    """ParallelTempering.run_for driven directly (take_steps / swap are counting stubs: what they do is C08's subject)"""
+    import inference.mcmc.parallel as par
+    h.covers(par.ParallelTempering.run_for)
+    log = []
+
+    class PT(par.ParallelTempering):
+        def __init__(self):
+            pass
+
+        def take_steps(self, n):
+            log.append(("steps", n))
+
+        def swap(self):
+            log.append(("swap",))
+    # readings: start, t1, t2, then two per loop iteration (loop test, time-left message) and the final loop test
+    clock = CycleClock(h, log, max_calls=3 + 2 * iters + 1, regime=regime)
+    h.patch(par, both=True, time=clock, sys=_Quiet, divmod=lambda a, b: (0, 0))
+    h.patch(par, int=stubs.sym_int)
+    minutes = h.real("minutes", lo=0)
+    interval = h.choice_int("swap_interval", 1, 2)
+    pt = PT()
+    m0 = h.mark()
+    try:
+        pt.run_for(minutes=minutes, swap_interval=interval)
+    finally:
+        h.defined("run_for never divides by zero (the clock may not have advanced over the timing cycle)", 0.0, since=m0)
+    times = [k for k, e in enumerate(log) if e[0] == "time"]
+    start = log[times[0]][1]
+    end = start + minutes * 60.0
+    for k, e in enumerate(log):
+        if e[0] == "steps":
+            h.same(f"event {k}: every batch of steps is one swap interval long", e[1], interval)
+            h.same(f"event {k}: followed by one exchange round", log[k + 1][0] if k + 1 < len(log) else None, "swap")
+    # readings 0,1 = start, t1; 2 = t2; 3 = first loop test; then (message, loop test) pairs
+    tests = times[3::2]
+    msgs = times[4::2]
+    for a, (t_idx, m_idx) in enumerate(zip(tests, msgs)):
+        cyc = sum(1 for e in log[t_idx + 1:m_idx] if e[0] == "swap")
+        h.same(f"loop iteration {a + 1}: at least one whole swap cycle taken", cyc >= 1, True)
+        h.true(f"loop iteration {a + 1} was entered with time left", log[t_idx][1] < end)
+    h.true("the loop stopped at the first test with the budget used up", log[tests[-1]][1] >= end)
 
 
 @unit("C15")
